@@ -1,4 +1,44 @@
-(* C06 — placeholder while the check is wired; replaced below in this session *)
+(* C06 — automatic discovery agrees with the equivalent explicit declaration. *)
 From Sigtools.Model Require Import Base Bind Algebra Visitor Discover.
-Theorem C06_placeholder : True. Proof. exact I. Qed.
-Print Assumptions C06_placeholder.
+From Sigtools.Proofs Require Import SmallModel Basics Discover.
+
+(* the signatures forward_signatures collects are exactly forwards(wrapper,
+   callee, n, *names, flags) of the calls that forward a star, in order *)
+Theorem C06_forward_sigs_declared own calls sigs :
+  forward_sigs own calls = Some sigs <->
+  Forall2 (fun c r => declared own c = Some (Ok r)) (filter relevant calls) sigs.
+Proof. exact (forward_sigs_declared own calls sigs). Qed.
+Print Assumptions C06_forward_sigs_declared.
+
+(* discovery fails (-> fallback) exactly when some star-forwarding call cannot
+   be resolved, has no signature, or its declaration raises *)
+Theorem C06_forward_sigs_fails own calls :
+  forward_sigs own calls = None <->
+  exists c, In c (filter relevant calls) /\ forall r, declared own c <> Some (Ok r).
+Proof. exact (forward_sigs_fails own calls). Qed.
+Print Assumptions C06_forward_sigs_fails.
+
+(* the discovered signature is the merge of the declared ones, else the plain one *)
+Theorem C06_discover_spec own plain have_ast calls :
+  (exists sigs r,
+      has_star own = true /\ have_ast = true /\ sigs <> [] /\
+      Forall2 (fun c s => declared own c = Some (Ok s)) (filter relevant calls) sigs /\
+      merge sigs = Ok r /\ discover own plain have_ast calls = r)
+  \/ discover own plain have_ast calls = plain.
+Proof. exact (discover_spec own plain have_ast calls). Qed.
+Print Assumptions C06_discover_spec.
+
+(* calls that forward neither star (decoys) do not change the outcome *)
+Theorem C06_decoys_ignored own plain have_ast calls :
+  discover own plain have_ast (filter relevant calls) = discover own plain have_ast calls.
+Proof. exact (discover_decoys own plain have_ast calls). Qed.
+Print Assumptions C06_decoys_ignored.
+
+Theorem C06_flags found original :
+  has_hide found original =
+  match found with
+  | None => (false, false)
+  | Some m => if same_object m original then (true, false) else (false, true)
+  end.
+Proof. exact (has_hide_spec found original). Qed.
+Print Assumptions C06_flags.
